@@ -30,7 +30,7 @@ Definition model_call (c : scall) : option (list N) :=
       end
   | SSlice s q i j =>
       match i64_of_literal i, i64_of_literal j with
-      | Some i', Some j' => option_map (fun r => show_str r q) (str_slice s i' j')
+      | Some i', Some j' => Some (show_str (str_slice s i' j') q)
       | _, _ => None
       end
   | SUpper s q => Some (show_str (str_upper s) q)
@@ -76,17 +76,6 @@ Definition clause_quotes (c : case) : bool :=
   | _, _ => true
   end.
 
-(* known class K1 (F25): slice whose computed start lies after its computed end is an error *)
-Definition known_K1 (c : case) : bool :=
-  match c_call c with
-  | SSlice s _ i j =>
-      match i64_of_literal i, i64_of_literal j with
-      | Some i', Some j' => negb (slice_start i' (Z.of_nat (length s)) <=? slice_end j' (Z.of_nat (length s)))%Z
-      | _, _ => false
-      end
-  | _ => false
-  end.
-
 Definition b2z (b : bool) : Z := if b then 1%Z else 0%Z.
 Definition run (c : case) : list Z :=
-  [ corr c; b2z (clause c); (if known_K1 c then 1 else 0)%Z; b2z (clause_quotes c); (if known_K1 c then 1 else 0)%Z ].
+  [ corr c; b2z (clause c); 0%Z; b2z (clause_quotes c); 0%Z ].
